@@ -574,7 +574,12 @@ def roundtrip_case(ctx, rng, open_, method, het, exact, nops=None, form=None, st
         for k in range(T):
             e = {"start": es[k], "end": es[k + 1], "middle": 0.5 * (es[k] + es[k + 1])}[store]
             worst = max(worst, abs(meas[i, k] - (e + f * flat[i, k] / dt)))
-    if worst > 1e-9:
+    # float validation: relative to the size of the quantities involved
+    state_scale = max(float(np.abs(st.full()).max()) for st in r1.states)
+    diverged = state_scale > 1e3
+    if diverged:
+        ctx.cov["diverged_roundtrips"] = ctx.cov.get("diverged_roundtrips", 0) + 1
+    if worst > 1e-9 * max(1.0, float(np.abs(meas).max())) and not diverged:
         found.append(("stochastic.py:StochasticTrajResult.measurement", "formula",
                       "measurement differs from <M> + dW_factor*dW/dt by %.3g" % worst, key))
     # trace / Hermiticity of every stored state (validation, tolerance)
@@ -588,7 +593,6 @@ def roundtrip_case(ctx, rng, open_, method, het, exact, nops=None, form=None, st
                 # catastrophically in floating point and trace / Hermiticity
                 # are lost to rounding, not to the scheme [NUM]; counted, not
                 # judged (the bitwise replay checks below still apply)
-                ctx.cov["diverged_roundtrips"] = ctx.cov.get("diverged_roundtrips", 0) + 1
                 break
             if abs(np.trace(a) - 1) > 1e-9 or np.abs(a - a.conj().T).max() > 1e-9:
                 found.append(("sode:%s" % method, "trace-or-hermiticity",
@@ -663,8 +667,10 @@ def roundtrip_case(ctx, rng, open_, method, het, exact, nops=None, form=None, st
                 # float replay through (m*dt)/sqrt2 - <M>*dt: validation with a
                 # tolerance; the exact version of this check is the scheme-step
                 # correspondence with measurement input (c17_sde)
-                tol = 1e-9
-                if d > tol:
+                # (not judged on trajectories that diverge: the conversion
+                # m*dt - <M>*dt cancels and the error is amplified without bound)
+                tol = 1e-9 * max(1.0, state_scale)
+                if d > tol and not diverged:
                     site = SITE_ROUCHON if method == "rouchon" else SITE_RFE
                     sig = "measurement-input-used-as-increments" if method == "rouchon" \
                         else "replay-measurement-differs"
